@@ -98,6 +98,8 @@ func (i *Interpreter) restart() error {
 	i.Debugger.Message(fmt.Sprintf("Restarted (%d) time", i.ctx.Restarts))
 	// The lookup is done again, the cached flag reports the branch which is taken after the restart
 	i.process.Cached = false
+	// ...and so does the state which X-Cache and fastly_info.state report: no lookup has been done yet in this pass
+	i.ctx.State = "NONE"
 	i.ctx.BackendRequest = nil
 	i.ctx.BackendResponse = nil
 	i.ctx.Object = nil
